@@ -50,6 +50,22 @@ def norm(path):
     return s
 
 
+def _recode(text, enc, errors, reading):
+    """The simulated disk holds bytes; the stored text is their reading under the locale encoding of the simulated
+    machine (UTF-8). A text file opened with another ``encoding=`` sees / leaves those bytes through that codec."""
+    import codecs
+    if enc is None:
+        return text
+    try:
+        if codecs.lookup(enc).name == "utf-8":
+            return text
+    except LookupError:
+        raise LookupError("unknown encoding: %s" % enc)
+    if reading:
+        return text.encode("utf-8", "surrogateescape").decode(enc, errors or "strict")
+    return text.encode(enc, errors or "strict").decode("utf-8", "surrogateescape")
+
+
 class SimFile(io.TextIOBase):
     def __init__(self, fs, name, mode, data=""):
         super().__init__()
@@ -130,6 +146,8 @@ class SimFile(io.TextIOBase):
             self.fs.w.count("fault.write_error")
             raise SimOSError(errno.ENOSPC, "simulated: no space left on device")
         self.fs.total_writes += 1
+        if getattr(self, "sim_encoding", None):
+            s = _recode(s, self.sim_encoding, getattr(self, "sim_errors", None), False)
         self._buf.append(s)
         self.fs.written_log.setdefault(self.sim_name, []).append(s)
         if "\n" in s and self.line_buffered:
@@ -234,13 +252,15 @@ class SimFS:
     def open(self, path, mode="r", *args, **kwargs):
         if not is_sim(path):
             return builtins.open(path, mode, *args, **kwargs)
+        for k, v in zip(("buffering", "encoding", "errors"), args):   # (the positional spelling of open's parameters)
+            kwargs.setdefault(k, v)
         name = norm(path)
         self.opens += 1
         self.w.count("sim.opens")
         if "r" in mode:
             if name not in self.files:
                 raise SimFileNotFound(errno.ENOENT, "No such simulated file", str(path))
-            f = SimFile(self, name, mode, self.files[name])
+            f = SimFile(self, name, mode, _recode(self.files[name], kwargs.get("encoding"), kwargs.get("errors"), True))
         else:
             if "x" in mode and name in self.files:
                 raise SimFileExists(errno.EEXIST, "File exists", str(path))
@@ -249,6 +269,9 @@ class SimFS:
                 self.written_log[name] = []
             f = SimFile(self, name, mode)
         f.line_buffered = kwargs.get("buffering", -1) == 1
+        f.sim_encoding, f.sim_errors = kwargs.get("encoding"), kwargs.get("errors")
+        if kwargs.get("encoding"):
+            self.w.count("sim.opens_with_encoding")
         self.open_handles[id(f)] = name
         return f
 
